@@ -135,9 +135,9 @@ theorem TBH2TP_code (c : Consts) (m : CFFs) (pt : Pt) :
       codeTP pt.xB pt.Q2 pt.t pt.y pt.eps2 c.Mp c.Mp2 pt.K_ pt.P1P2 pt.in1polarization (kcos pt.varphi) (ksin pt.varphi)
         (kcos pt.phi) (ksin pt.phi) m.F1 m.F2 (ksqrt (1 - pt.y - pt.eps2 * pt.y ^ 2 / 4)) (ksqrt pt.Q2)
         (ksqrt (1 + pt.eps2)) (ksqrt ((1 + pt.eps2) ^ 3)) := by
-  -- the half-integer power (1+ε²)^(3/2) of sBH1TP in any spelling (`sqrt(x**3)`, `x**1.5`, `sqrt(x)**3`, `x*sqrt(x)`)
+  -- the half-integer power (1+ε²)^(3/2) of sBH1TP in any spelling (`sqrt(x**3)`, `sqrt(x*x*x)`, `x**1.5`, `sqrt(x)**3`, `x*sqrt(x)`)
   bridge_simp [BMK.TBH2TP, BMK.PreFacBH, BMK.cBH0TP, BMK.cBH1TP, BMK.sBH1TP, codeTP, one_mul,
-    ksqrt_pow3, ksqrt_npow3, kpow_1p5]
+    ksqrt_pow3, ksqrt_mul3, ksqrt_npow3, kpow_1p5]
 
 /-! ### transverse target spin -/
 
